@@ -1,0 +1,20 @@
+//go:build verif
+// +build verif
+
+package main
+
+import (
+	"os"
+	"strconv"
+)
+
+// Verification hook (compiled only with -tags verif): the size of the worker
+// pool can be set from the environment, so that the /verif harness can run
+// the pipeline with 1, 2 or 50 workers.
+func init() {
+	if v := os.Getenv("VERIF_SEQLS_WORKERS"); v != "" {
+		if n, err := strconv.Atoi(v); err == nil && n > 0 {
+			numWorkers = n
+		}
+	}
+}
